@@ -1096,6 +1096,7 @@ package tcell
 //@   calls [paste] call(enablePasting, recv, on, ret) ==> on == t.pasteEnabled
 //@   ensures [reapplied] isNil(result) ==> calls(enableMouse) == 1 && calls(enablePasting) == 1 && calls(enableFocusReporting) == (t.focusEnabled ? 1 : 0)
 //@   ensures [not-started] !isNil(result) ==> calls(enableMouse) == 0 && calls(enablePasting) == 0 && calls(enableFocusReporting) == 0
+//@   ensures [finished-stays-down] old(t.fini) ==> !isNil(result) && calls(Start) == 0 && calls(NotifyResize) == 0
 //@   modifies t.running, t.stopQ, t.cells.w, t.cells.h, t.cells.cells, t.buf, t.wg, t.Mutex
 
 // ---------------------------------------------------------------------------
